@@ -234,10 +234,10 @@ def main():
                 for f in r['_ens'] + r['_safety']:
                     if f['label'] and f['label'] in have:
                         continue
-                    if bounded_ok:
-                        r['_inv'] = r['_inv'] + [f]      # treated like a proof-internal failure below
-                    else:
-                        labelled.append((f, r))
+                    # Neither "the bounded run discharged it" nor "the bounded run could not complete" makes a modular
+                    # refutation a violation by itself (a harmless refactoring can break an invariant, and with it the
+                    # clauses derived from it): the native oracle must confirm it on the real code (below), else undecided.
+                    r['_inv'] = r['_inv'] + [f]
             if not labelled and r['status'] == 'bounded-only' and bounded_ok:
                 continue            # held up to the stated bound; reported under bounded_standins only
             if not labelled:
